@@ -148,6 +148,7 @@ Definition rep_im (s : bytes) (n : Z) (sep : option bytes) : res bytes :=
     let sz := wrap (sz1 + sz2) in
     if negb (Z.quot sz1 n =? len s) || negb (Z.quot sz2 (wrap (n - 1)) =? len sep) || (sz <? 0)
     then Err EOverflow
+    else if sz =? 0 then Ok []                         (* nothing to build: no n-fold loop *)
     else Ok (s ++ rep_loop (Z.to_nat (n - 1)) s sep)
   end.
 
@@ -177,96 +178,19 @@ Definition find_plain_im (s p : bytes) (init : option Z) : res (option (Z * Z)) 
   bind (slice s si (len s)) (fun tl =>
   let i := go_index tl p in
   if i =? -1 then Ok None
-  else Ok (Some (i + 1, i + len p))).
+  else Ok (Some (wrap (wrap (si + i) + 1), wrap (wrap (si + i) + len p)))).   (* i is relative to s[si:] *)
 
 (* ---- string.upper / string.lower ----
-   Go: strings.ToUpper(s) / strings.ToLower(s).  These are UTF-8 aware:
-     isASCII(s)  -> byte-wise mapping of 'a'..'z' / 'A'..'Z'
-     otherwise   -> strings.Map(unicode.ToUpper, s): s is decoded rune by rune
-                    (an invalid byte decodes to U+FFFD of width 1), each rune is
-                    mapped and re-encoded in UTF-8.
-   unicode.ToUpper / ToLower are parameters [um] of the model (code point ->
-   code point; negative = drop, as strings.Map specifies). *)
+     sb := []byte(s)
+     for i, b := range sb { if 'a' <= b && b <= 'z' { sb[i] = b - ('a' - 'A') } }
+   (byte arithmetic cannot wrap inside the tested range) *)
 Definition ascii_upper (b : Z) : Z := if (97 <=? b) && (b <=? 122) then b - 32 else b.
 Definition ascii_lower (b : Z) : Z := if (65 <=? b) && (b <=? 90) then b + 32 else b.
-Definition is_ascii (s : bytes) : bool := forallb (fun b => b <? 128) s.
 
-Definition rune_error : Z := 65533.  (* U+FFFD *)
-
-(* utf8.DecodeRuneInString on a non-empty string: (rune, width) *)
-Definition cont_b (b : Z) : bool := (128 <=? b) && (b <=? 191).
-Definition decode_rune (s : bytes) : Z * nat :=
-  match s with
-  | [] => (rune_error, O)
-  | b0 :: t =>
-    if b0 <? 128 then (b0, 1%nat) else
-    if (194 <=? b0) && (b0 <=? 223) then
-      match t with
-      | b1 :: _ => if cont_b b1 then ((b0 - 192) * 64 + (b1 - 128), 2%nat) else (rune_error, 1%nat)
-      | _ => (rune_error, 1%nat)
-      end
-    else if (224 <=? b0) && (b0 <=? 239) then
-      match t with
-      | b1 :: b2 :: _ =>
-        let lo := if b0 =? 224 then 160 else 128 in
-        let hi := if b0 =? 237 then 159 else 191 in
-        if (lo <=? b1) && (b1 <=? hi) && cont_b b2
-        then ((b0 - 224) * 4096 + (b1 - 128) * 64 + (b2 - 128), 3%nat) else (rune_error, 1%nat)
-      | _ => (rune_error, 1%nat)
-      end
-    else if (240 <=? b0) && (b0 <=? 244) then
-      match t with
-      | b1 :: b2 :: b3 :: _ =>
-        let lo := if b0 =? 240 then 144 else 128 in
-        let hi := if b0 =? 244 then 143 else 191 in
-        if (lo <=? b1) && (b1 <=? hi) && cont_b b2 && cont_b b3
-        then ((b0 - 240) * 262144 + (b1 - 128) * 4096 + (b2 - 128) * 64 + (b3 - 128), 4%nat)
-        else (rune_error, 1%nat)
-      | _ => (rune_error, 1%nat)
-      end
-    else (rune_error, 1%nat)
+Fixpoint case_loop (f : Z -> Z) (sb : bytes) : bytes :=
+  match sb with
+  | [] => []
+  | b :: r => f b :: case_loop f r
   end.
-
-(* utf8.AppendRune: invalid runes (negative handled by the caller, > 0x10FFFF,
-   surrogates) are encoded as U+FFFD *)
-Definition encode_rune (r : Z) : bytes :=
-  if r <? 128 then [r] else
-  if r <? 2048 then [192 + r / 64; 128 + r mod 64] else
-  if (1114111 <? r) || ((55296 <=? r) && (r <=? 57343)) then [239; 191; 189] else
-  if r <? 65536 then [224 + r / 4096; 128 + (r / 64) mod 64; 128 + r mod 64] else
-  [240 + r / 262144; 128 + (r / 4096) mod 64; 128 + (r / 64) mod 64; 128 + r mod 64].
-
-(* strings.Map(um, s): observable result (the copy-on-first-change
-   optimisation does not change the result: an unchanged valid rune
-   re-encodes to its own bytes; an invalid byte counts as changed because
-   U+FFFD of width 1 is re-encoded on 3 bytes — Go special-cases exactly this) *)
-Fixpoint map_runes (fuel : nat) (um : Z -> Z) (s : bytes) : bytes :=
-  match fuel with
-  | O => []
-  | S f =>
-    match s with
-    | [] => []
-    | _ =>
-      let '(r, w) := decode_rune s in
-      let m := um r in
-      (if m <? 0 then [] else encode_rune m) ++ map_runes f um (skipn w s)
-    end
-  end.
-
-Definition upper_im (um : Z -> Z) (s : bytes) : res bytes :=
-  if is_ascii s then Ok (map ascii_upper s) else Ok (map_runes (length s) um s).
-Definition lower_im (um : Z -> Z) (s : bytes) : res bytes :=
-  if is_ascii s then Ok (map ascii_lower s) else Ok (map_runes (length s) um s).
-
-(* The instance of unicode.ToUpper/ToLower used by the extracted oracle: exact
-   on ASCII, Latin-1 Supplement letters U+00C0..U+00DE / U+00E0..U+00FE
-   (without the operators U+00D7/U+00F7) and identity elsewhere.  The
-   correspondence check only feeds strings whose runes lie in
-   ASCII ∪ U+0080..U+00FE \ {U+00B5} ∪ {U+FFFD}, where this agrees with Go's tables
-   (U+00B5 and U+00FF have upper cases outside Latin-1). *)
-Definition latin1_upper (r : Z) : Z :=
-  if r <? 128 then ascii_upper r else
-  if (224 <=? r) && (r <=? 254) && negb (r =? 247) then r - 32 else r.
-Definition latin1_lower (r : Z) : Z :=
-  if r <? 128 then ascii_lower r else
-  if (192 <=? r) && (r <=? 222) && negb (r =? 215) then r + 32 else r.
+Definition upper_im (s : bytes) : res bytes := Ok (case_loop ascii_upper s).
+Definition lower_im (s : bytes) : res bytes := Ok (case_loop ascii_lower s).
